@@ -191,6 +191,7 @@ def run_par_case(case):
         'steps': sim.steps, 'switches': sim.switches, 'decisions': sim.decisions,
         'threads': len(sim.threads), 'now': sim.now, 'sig': sim.signature(),
         'pairs': sorted(sim.pairs), 'clock_jumps': sim.clock_jumps,
+        'timeouts_fired': sim.timeouts_fired,
     }
     res['main_blocks'] = list(sim.main_blocks)
     res['main_yields'] = list(sim.main_yields)
